@@ -33,7 +33,7 @@ from checks import c14 as C  # noqa: E402
 
 K1 = bytes(range(1, 17))
 COMP_A = dict(desc=[(0xC1, b"\x00"), (0xC3, b"\x02")], blob=bytes(range(40)), actual_len=None, enc=False)
-COMP_B = dict(desc=[(0xC4, b"\x00\x11")], blob=b"\x07" + bytes(15), actual_len=9, enc=False)
+COMP_B = dict(desc=[(0xC4, b"\x00\x11"), (0xC2, b"")], blob=b"\x07" + bytes(15), actual_len=9, enc=False)
 COMP_E = dict(desc=[(0xC3, b"\x03"), (0xC2, b"\x02"), (0xC1, b"\x03"), (0xC5, b"\x01")], blob=b"\x05\x01\x11\x11\x22\x01\x33\x00", actual_len=None, enc=True)
 BLK_C = dict(kind="cust", crypto_key=bytes(range(16, 32)), customer_key=None)
 BLK_U = dict(kind="upd", code=b"\x45" * 8, version=9)
@@ -94,7 +94,12 @@ def decode(data):
         case["base"] = f.PickValueInList(BF2_BASES)
         case["style"] = f.ConsumeIntInRange(0, 3)
         case["enforce"] = f.ConsumeBool()
-        case["instr"] = [(f.PickValueInList(["insert", "front"]), f.ConsumeIntInRange(0, 200), f.PickValueInList(INS + ["#> REBOOT", ":0000FF00", ":00003503020000", "##Firmware: 11"]).rstrip("\n")) for _ in range(f.ConsumeIntInRange(0, 3))]
+        def line():
+            if f.ConsumeBool():
+                return f.PickValueInList(INS + ["#> REBOOT", ":0000FF00", ":00003503020000", "##Firmware: 11"]).rstrip("\n")
+            return f.PickValueInList(["#> ", "#>", "##", "## "]) + f.PickValueInList(C._INSTR_NAMES) + f.PickValueInList([" ", ": ", ":", ""]) + f.PickValueInList(C._INSTR_VALUES)
+
+        case["instr"] = [(f.PickValueInList(["insert", "front"]), f.ConsumeIntInRange(0, 200), line()) for _ in range(f.ConsumeIntInRange(0, 3))]
     elif t == "cfgid":
         case["text"] = f.PickValueInList(["12345-1234-1234-12 n", "n (version 07)", "99999-9999-9999-99", ""])
     else:
